@@ -303,8 +303,8 @@ def _task_options(task):
             os.makedirs(os.path.dirname(fpath), exist_ok=True)
             with open(fpath, "wb") as f:
                 f.write(b"".join(pkts))
-        except OSError:
-            continue  # the file system does not take this name
+        except (OSError, UnicodeEncodeError):
+            continue  # the file system (or, in the C locale, the file system encoding) does not take this name
         for g in ([], ["-v"], ["--log-level", "INFO"], ["-q"]):
             for cmd in ("describe-packets", "parse"):
                 logging.disable(logging.NOTSET)
